@@ -208,7 +208,23 @@ func c25Gen(w *bufio.Writer, seed int64, tier string) {
 		}
 	}
 	benign := []string{"-l", "-la", "hello", "a b", "file.txt", "dir/file", "--color=auto", "x=1", "\"q\"", "'q'", "a\nb", "caf\xc3\xa9", "\xff\xfe", "-", "", "%s", "#", "^", "@", ":", ",", "+", "=", "a/../b", "C:"}
+	long := func() string {
+		n := r.pick(255, 256, 1023, 4095, 4096, 4097, 70000)
+		b := []byte(strings.Repeat("a-b_c.d ", n/8+1)[:n])
+		switch r.intn(4) {
+		case 0: // one metacharacter at the very end / start / middle
+			b[len(b)-1] = class[r.intn(len(class))]
+		case 1:
+			b[0] = '/'
+		case 2:
+			b[len(b)/2] = class[r.intn(len(class))]
+		}
+		return string(b)
+	}
 	mkArg := func() string {
+		if r.chance(3) {
+			return long()
+		}
 		switch r.intn(10) {
 		case 0, 1, 2, 3:
 			return benign[r.intn(len(benign))]
@@ -236,6 +252,14 @@ func c25Gen(w *bufio.Writer, seed int64, tier string) {
 			wl = []string{"*"}
 		case 2:
 			wl = []string{cmds[r.intn(len(cmds))], "*"}
+		case 4: // a long whitelist, the wildcard (sometimes) last
+			for j := 0; j < 200; j++ {
+				wl = append(wl, fmt.Sprintf("tool%d", j))
+			}
+			wl = append(wl, cmds[r.intn(len(cmds))])
+			if r.chance(30) {
+				wl = append(wl, "*")
+			}
 		case 3: // entries that are not base names
 			wl = []string{"/bin/true", "a/b", "**", "* ", ""}
 		default:
@@ -285,8 +309,14 @@ func c25Gen(w *bufio.Writer, seed int64, tier string) {
 			if r.chance(25) {
 				cmd = near(cmd)
 			}
+			if r.chance(1) {
+				cmd = long()
+			}
 			var args []string
 			na := r.pick(0, 0, 1, 1, 2, 3)
+			if r.chance(2) { // long argument vectors: the offending one, if any, is late
+				na = r.pick(40, 300)
+			}
 			for a := 0; a < na; a++ {
 				if r.chance(70) {
 					args = append(args, benign[r.intn(len(benign))])
